@@ -14,7 +14,7 @@ def chain_for(r, coin, n):
 def explore(ck):
     r = ck.rng; quick = ck.tier == 'quick'
     ck.rule = ('bounded-exhaustive: every chain length T+1 (T <= %d) x every accepted (--start s, --end e) incl. absent, e below/at/above the tip, s up to T, '
-               'x 5 callbacks (callback rotates per (T,s,e) in the quick tier, all five in the thorough tier) x --verify on/off; plus high-height windows, windows whose index has no record below --start, indexes with header-only records above the tip and header-only/stale siblings (sorting before the active block) at occupied heights, equal-sized blocks stored out of order over two files (a block of one file at the offset where the other file was left), chains of 140..520 blocks and blocks ping-ponging between two blk files '
+               'x 5 callbacks (callback rotates per (T,s,e) in the quick tier, all five in the thorough tier) x --verify on/off; plus high-height windows, windows whose index has no record below --start, directories whose blk file with the blocks below --start is missing or cut off, indexes with header-only records above the tip and header-only/stale siblings (sorting before the active block) at occupied heights, equal-sized blocks stored out of order over two files (a block of one file at the offset where the other file was left), chains of 140..520 blocks and blocks ping-ponging between two blk files '
                '(multi-byte VarInt heights). Non-trivial: s > 0 or e <= T (a bound cuts the chain); distinct by (T,s,e,callback).' % (4 if quick else 9))
     cases = []; expect = {}
     Tmax = 4 if quick else 9
@@ -63,6 +63,15 @@ def explore(ck):
             c = Case('noparent%d_s%d_e%s' % (H, s, e), coin).simple_layout(blocks, start_height=H); c.start = s; c.end = e
             c.verify = False; c.meta['cbs'] = ['csv', 'unspent']; c.meta['T'] = H + n
             expect[c.id] = list(range(s, min(e, H + n) + 1 if e is not None else H + n + 1)); cases.append(c)
+    # the blk file that holds the blocks below --start is missing or cut off (a pruned or partially copied directory): the range itself is complete and must be delivered
+    for k3, (S, variant) in enumerate([(3, 'removed'), (3, 'cut'), (4, 'removed'), (2, 'cut')]):
+        coin = gen.ALL_COINS[(k3 * 3 + 1) % 8]; blocks = chain_for(r, coin, 8); c = Case('prunedpred%d_s%d_%s' % (k3, S, variant), coin)
+        for h, b in enumerate(blocks):
+            f = 0 if h < S else 1; off = c.put_block(f, b.raw); c.add_record(b, h, f, off)
+        if variant == 'removed': del c.files[0]
+        else: o_, d_ = c.files[0][0]; c.files[0] = [(o_, d_[:len(d_) // 3])]
+        c.start = S; c.end = None if k3 % 2 else 6; c.verify = (k3 == 2); c.meta['cbs'] = ['csv', 'unspent']; c.meta['T'] = 7
+        expect[c.id] = list(range(S, (6 if c.end else 7) + 1)); cases.append(c)
     # records that are not part of the chain but live in the same index (C04's subject; here they must not shift the range): header-only records above the tip,
     # a header-only record and a stale sibling with data (sorting before the active block) at an occupied height
     for k2 in range(4 if quick else 16):
